@@ -74,27 +74,7 @@ Next ==
 (* C02 *)
 \* persistent values equal, modulo the two stated normalisations: an unset typed list/dict
 \* may come back empty, an empty secret comes back unset
-RECURSIVE SameLeaf(_, _, _)
-SameLeaf(f, x, y) ==
-    \/ y = x
-    \/ IsNone(x) /\ f.kind = "list" /\ y = ListV(<<>>)
-    \/ IsNone(x) /\ f.kind = "dict" /\ y = DictV(<<>>)
-    \/ f.kind = "secure" /\ ~Truthy(x) /\ IsNone(y)
-    \/ /\ f.kind = "list" /\ f.item.kind # "nofield" /\ x.t = "list" /\ y.t = "list" /\ Len(x.l) = Len(y.l)
-       /\ \A j \in DOMAIN x.l : SameLeaf(f.item, x.l[j], y.l[j])
-    \/ /\ f.kind = "dict" /\ f.valf.kind # "nofield" /\ x.t = "dict" /\ y.t = "dict" /\ Len(x.kv) = Len(y.kv)
-       /\ \A j \in DOMAIN x.kv : x.kv[j][1] = y.kv[j][1] /\ SameLeaf(f.valf, x.kv[j][2], y.kv[j][2])
-RECURSIVE SameVals(_, _, _)
-SameVals(Sx, a, b) ==
-    \A i \in DOMAIN Sx.fields :
-        LET k == Sx.fields[i][1]  f == Sx.fields[i][2] IN
-        f.kind = "virtual" \/
-        (k \in DOMAIN a.vals /\ k \in DOMAIN b.vals /\
-         LET x == a.vals[k]  y == b.vals[k] IN
-         IF IsCfg(x) THEN IsCfg(y) /\ SameVals(f, x, y)
-         ELSE IF f.kind = "list" /\ IsSchema(f.item) /\ x.t = "list" THEN
-              y.t = "list" /\ Len(y.l) = Len(x.l) /\ \A j \in DOMAIN x.l : SameVals(f.item, x.l[j], y.l[j])
-         ELSE SameLeaf(f, x, y))
+\* (SameLeaf / SameVals: CincoConfig.tla)
 A_Reproduces == (ev'.op = "RoundTrip") => ev'.out = "ok" /\ SameVals(S, cfg, cfg')
 C02_Reproduces == [][A_Reproduces]_vars
 
